@@ -219,6 +219,7 @@ func TestC10ValidatorAPI(t *testing.T) {
 		faulted, disarm := beaconFault(rt, cl.bn)
 		if forceDomainFault {
 			cl.bn.Fail("domain", 4)
+			cl.bn.Fail("genesis_domain", 4)
 			faulted = true
 		}
 		func() {
@@ -253,12 +254,12 @@ func TestC10ValidatorAPI(t *testing.T) {
 // reports for a 5xx answer, or as a timeout. Whatever the node does with such a fault, it must not admit what it
 // could not verify. The returned function disarms it.
 func beaconFault(rt *rapid.T, bn *fakebn.BN) (armed bool, disarm func()) {
-	disarm = func() { bn.Fail("spec", 0); bn.Fail("domain", 0) }
+	disarm = func() { bn.Fail("spec", 0); bn.Fail("domain", 0); bn.Fail("genesis_domain", 0) }
 	if rapid.IntRange(0, 3).Draw(rt, "beaconFault") != 0 {
 		return false, disarm
 	}
 	n := rapid.IntRange(1, 2).Draw(rt, "faults")
-	at := rapid.SampledFrom([]string{"spec", "domain"}).Draw(rt, "faultAt")
+	at := rapid.SampledFrom([]string{"spec", "domain", "domain", "genesis_domain"}).Draw(rt, "faultAt")
 	ferr := []error{nil, &eth2api.Error{Method: "GET", Endpoint: "/eth/v1/config/spec", StatusCode: 503, Data: []byte("service unavailable")},
 		&eth2api.Error{Method: "GET", Endpoint: "/eth/v1/config/spec", StatusCode: 500, Data: []byte("internal error")}, fmt.Errorf("config: %w", context.DeadlineExceeded)}[rapid.IntRange(0, 3).Draw(rt, "faultKind")]
 	if ferr == nil {
@@ -518,6 +519,7 @@ func TestC10PeerPath(t *testing.T) {
 		faulted, disarm := beaconFault(rt, cl.bn)
 		if forceDomainFault {
 			cl.bn.Fail("domain", 4)
+			cl.bn.Fail("genesis_domain", 4)
 			faulted = true
 		}
 		calls, handled := run(duty, set)
